@@ -6,6 +6,7 @@ from ..core import Result, HarnessBug
 from ..vm import Prog, expect_ok
 
 ID = "C15"
+ALT_BUILD = True          # a quarter of the workers run the gcc -O0 build (core.py)
 LEVEL = "exploration"
 BUDGET = {"quick": 3000, "thorough": 900000}
 RULE = ("case = 1-6 values (Int full range, Float incl. huge/tiny/denormal and +-inf, String over bytes 1..255 incl. quotes, "
